@@ -162,6 +162,10 @@ def check(sim, stats, info, acc, kind, shape, step, scb):
     if st and st[-1] != "CLOSED":
         acc.violation("last-status-not-closed", f"{kind}/{shape}: status trace {st} does not end in CLOSED", w)
     acc.cover("shapes", f"{kind}/{shape}")
+    if step % 11 == 3:
+        acc.sample({"client": kind, "shape": shape, "close_at_step": step, "status_callback": scb, "sampled_state_changes": sim.state_changes,
+                    "status_trace": st, "attempts": [(a["start_step"], a["outcome"]) for a in sim.attempts], "connections_closed": [c.closing or c.lost for c in sim.conns],
+                    "tasks_pending_at_quiescence": sim.pending_at_end, "receive_callbacks_after_close_returned": sim.recv_after_close_returned}, cap=6)
     return {"status": st, "attempts": len(sim.attempts), "received": len(sim.received), "final": sim.state_changes[-1][1]}
 
 
